@@ -5,6 +5,10 @@ Workload : generated FlowIR documents in which every layer (default/platform x g
            omits each leaf of a palette of typed options and each variable, with values tagged by
            the layer they come from; 3 platforms, 2 stages, variable chains, undefined references,
            falsy values (0, "", False, []).  Plus the exhaustive presence lattice of one leaf.
+           Plus update histories (gen/c04_updates.py): ONE live object is queried, one variable of one
+           layer is changed through the public setters (every platform section, also the default
+           one while another platform is queried) or the user variable file is applied to the
+           already queried object, and it is queried again.
 Observe  : FlowIRConcrete.get_component_configuration(c, raw=False, include_default=True, platform=P)
            (through FlowIRExperimentConfiguration when a user variable file is part of the case).
 Oracle   : ref/c04_layering.py, an independent resolver of the two lattices in the statement.
@@ -522,7 +526,9 @@ def main():
         PROP, "exploration",
         rule="distinct (palette leaf or variable, bitmask of the layers that define it, selected platform is the "
              "default one) triples reached by the random configurations + one entry per (leaf, presence pattern, "
-             "platform) of the exhaustive lattice slice",
+             "platform) of the exhaustive lattice slice + (update kind, section written relative to the queried "
+             "pair, expected outcome changed?, expected status, queried platform is default?) classes of the "
+             "update histories",
         assumptions=[
             "the built-in defaults layer is taken from FlowIR.default_component_structure() of the tree under test",
             "option values have an unambiguous reading for their declared type (ints/decimal strings for int and "
@@ -536,6 +542,11 @@ def main():
             "in 3 of 4 documents component override sections only reference variables that the default platform "
             "defines globally, so the known mechanism " + KEY_FOREIGN + " cannot trigger there",
             "any raised exception counts as 'reported as an error' for a reference to an undefined variable",
+            "update histories: the description 'at the time of the query' is the initial document plus the "
+            "accepted setter calls (tracked by construction; a setter that raises is taken to have changed "
+            "nothing); after the user variable file has been applied no setter touches a name that the file "
+            "defines (except set_component_variable, which outranks the user layer), because the file is stored "
+            "in the platform stage sections; set_stage_variable is only used for stages the default section has",
         ])
     c.max_samples = 3
     rp = vlib.load_replay(sys.argv)
